@@ -29,6 +29,7 @@ func scenarios(tier string) []sched.Scenario {
 	mk := func() []oxc.Oracle { return []oxc.Oracle{&oxc.DurabilityOracle{}} }
 	specs := []oxc.ScenarioSpec{
 		{Name: "rolling-isolation", Fault: "rolling-isolation", Clients: 0, PerCli: 0, SyncData: true},
+		{Name: "failed-become-leader", Fault: "failed-become-leader", Clients: 0, PerCli: 0, SyncData: true},
 		{Name: "leader-crash", Fault: "leader-crash", Clients: 2, PerCli: 1, SyncData: true},
 		{Name: "spurious-failover", Fault: "spurious-failover", Clients: 2, PerCli: 1, SyncData: true},
 		{Name: "swap", Fault: "swap", Clients: 2, PerCli: 1, SyncData: true},
@@ -60,7 +61,7 @@ func main() {
 			}
 			return 110 * time.Second
 		},
-		Rule: "every schedule with at most max_dev non-default choices at coarse points (RPC delivery, stream/channel operations, selects, timers) of a real 3(+1)-node cluster with 2 concurrent client writers and one fault (leader crash, crash+restart, spurious failover, node swap of a follower / of the leader, coordinator crash mid-election); acknowledged writes are checked on every new leader and on the final leader",
+		Rule:   "every schedule with at most max_dev non-default choices at coarse points (RPC delivery, stream/channel operations, selects, timers) of a real 3(+1)-node cluster with 2 concurrent client writers and one fault (leader crash, crash+restart, spurious failover, node swap of a follower / of the leader, coordinator crash mid-election); acknowledged writes are checked on every new leader and on the final leader",
 		Assume: []string{"sequentially consistent memory", "in-process transports replace gRPC", "a crashed node keeps its disk: Pebble loses what it had not synced, the WAL keeps what was appended", "coarse granularity; virtual time"}}
 	os.Exit(sched.Main(su, *replay))
 }
